@@ -136,6 +136,18 @@ def generate(thorough):
             live = [[c for c in al if c is not None] for al in alts]
             solvable = any(all(v in l for l in live) for v in (0, 1))
             add(text, {}, [("goal", "g%d" % gi, "G%d" % gi, {}) for gi in range(ng)], solvable=solvable)
+    # predicate inheritance: the rule that creates the sub-goal sits 1, 2 or 3 levels above the predicate of the goal, with
+    # empty or non-empty rules in between (super-predicate rules are applied first, transitively)
+    for depth in (1, 2, 3):
+        for mid in ("", "k >= 0.0;"):
+            for kv in (2, 5):
+                names = ["T0", "T1", "T2", "T3"][:depth + 1]
+                text = "predicate N(real k) { k >= 1.0; } predicate T0(real k) { goal n = new N(k: k); }"
+                for i in range(1, depth + 1):
+                    text += " predicate T%d(real k) : T%d { %s }" % (i, i - 1, mid)
+                text += " goal g = new T%d(k: %d.0);" % (depth, kv)
+                add(text, {}, [("goal", "g", names[-1], {"k": lit(kv)})])
+                progs[-1][2]["must_have"] = [("N", {"k": F(kv)})]
     # two goals that can unify with each other
     qt = pred_text("Q", *PREDS["Q"])
     for a, b in ((None, None), (lit(1), None), (lit(1), lit(1)), (lit(1), lit(2))):
@@ -202,6 +214,11 @@ def judge(prog, res):
         for kk, e in args.items():
             if a["pars"].get(kk) != eval_expr(e, {}):
                 out.append(("C01:atom-argument-differs:rules:%s" % kind, "%s.%s is %s, the program says %s" % (name, kk, fam_tl.vstr(a["pars"].get(kk)), render(e))))
+    # atoms that the (inherited) rules of the declared goals must have put into the plan
+    for pred, args in m.get("must_have", []):
+        ok = any(a["pred"] == pred and a["state"] in ("Active", "Unified") and all(a["pars"].get(kk) == (v, F(0)) for kk, v in args.items()) for a in S.atoms.values())
+        if not ok:
+            out.append(("C03:required-subgoal-missing:rules:inherited-rule", "no atom %s(%s) is in the plan although the rule of a super-predicate of an active goal creates it" % (pred, ", ".join("%s=%s" % kv for kv in args.items()))))
     # every active goal satisfies its rule
     for aid, cz in S.causal.items():
         a = S.atoms.get(aid)
